@@ -158,7 +158,11 @@ func (r *rcx) fill(us []*up, pad bool) (padFlow int64, f *finding) {
 }
 
 // refused checks that the overshoot just sent on sid is answered by a flow-control error.
-func (r *rcx) refused(sid uint32, q *treq) *finding {
+// nResets is the number of RST_STREAM frames received on sid so far.
+func (r *rcx) nResets(sid uint32) int { return len(r.l.Stream(sid).Resets) }
+
+// refused: from = nResets(sid) before the overshoot was sent.
+func (r *rcx) refused(sid uint32, q *treq, from int) *finding {
 	l := r.l
 	var d [8]byte
 	copy(d[:], "c12over!")
@@ -166,10 +170,15 @@ func (r *rcx) refused(sid uint32, q *treq) *finding {
 	l.WaitUntil(watchdog, func() bool {
 		st := l.Stream(sid)
 		ga, _, _ := l.GoAway()
-		return st.ImplReset || ga || l.PingAcked(d) || l.EOF()
+		return len(st.Resets) > from || ga || l.PingAcked(d) || l.EOF()
 	})
 	st := l.Stream(sid)
 	ga, code, _ := l.GoAway()
+	if len(st.Resets) > from {
+		st.ImplReset, st.ImplResetCode = true, st.Resets[from]
+	} else {
+		st.ImplReset = false
+	}
 	switch {
 	case st.ImplReset && st.ImplResetCode == http2.ErrCodeFlowControl:
 		run.Add("receiver-overshoot-rst-stream", 1)
@@ -254,6 +263,20 @@ func runRecvS(c *recvCase) *finding {
 	case "stream-fill", "conn-fill", "accept":
 		var us []*up
 		var pls []*plan
+		var closedUp *up
+		if c.Sub == "closed-stream" {
+			// a stream whose handler returns at once without reading the body
+			pl := &plan{Abort: -1, Req: "ignore"}
+			u, f := open(1000, pl)
+			if f != nil {
+				return f
+			}
+			if !waitCh(pl.done) {
+				return &finding{class: r.pre + "handler", msg: "handler did not return", incon: true}
+			}
+			l.WaitUntil(watchdog, func() bool { return l.Stream(u.sid).ImplReset })
+			closedUp = u
+		}
 		for i := 1; i <= n; i++ {
 			pl := &plan{Abort: -1, Req: "all", ReadSz: 1 + rng.Intn(40000), Resp: int64(rng.Intn(100)), start: make(chan struct{})}
 			u, f := open(i, pl)
@@ -282,11 +305,16 @@ func runRecvS(c *recvCase) *finding {
 			if l.StreamSendAllowance(u.sid) <= 0 {
 				binding = "stream"
 			}
+			if closedUp != nil {
+				u = closedUp // the byte too many goes to a stream the server has already closed
+				run.Add("receiver-overshoot-on-closed-stream", 1)
+			}
 			r.logf("window full (binding: %s); overshoot %q on stream %d", binding, c.Over, u.sid)
+			from := r.nResets(u.sid)
 			r.overshoot(u) // a write error means the connection was torn down: judged by refused()
 			run.Add("receiver-overshoot-cases", 1)
 			run.Add("receiver-overshoot-"+binding+"-window", 1)
-			if f := r.refused(u.sid, nil); f != nil {
+			if f := r.refused(u.sid, nil, from); f != nil {
 				return f
 			}
 			for _, pl := range pls {
@@ -565,6 +593,38 @@ func runRecvT(c *recvCase) *finding {
 		return &up{sid: sid, key: q.respKey}, nil
 	}
 	switch c.Kind {
+	case "settings-overflow-probe":
+		// Observation only (the property text does not name this case): a
+		// SETTINGS_INITIAL_WINDOW_SIZE increase that lifts an open stream window
+		// above 2^31-1. RFC 9113 6.9.2 asks for a connection error; the ledger
+		// stays an upper bound whatever the transport does.
+		q := &treq{Key: keyBase + 1, Size: 300000, CL: true}
+		t.start(1, q)
+		sid, err := t.waitSid(1)
+		if err != nil {
+			return &finding{class: r.pre + "setup", msg: err.Error(), incon: true}
+		}
+		if err := l.Quiesce(watchdog); err != nil {
+			return &finding{class: r.pre + "fence", msg: err.Error(), incon: true}
+		}
+		l.WindowUpdate(sid, uint32(h2peer.MaxWindow-l.Allowance(sid)))
+		if err := l.Quiesce(watchdog); err != nil {
+			return &finding{class: r.pre + "fence", msg: err.Error(), incon: true}
+		}
+		l.Settings(http2.Setting{ID: http2.SettingInitialWindowSize, Val: 65535 + 1000})
+		l.WaitUntil(watchdog, func() bool { ga, _, _ := l.GoAway(); return ga || l.EOF() || l.PendingSettings() == 0 })
+		ga, code, _ := l.GoAway()
+		switch {
+		case ga && code == http2.ErrCodeFlowControl:
+			run.Add("transport-settings-overflow-refused-goaway", 1)
+		case l.EOF():
+			run.Add("transport-settings-overflow-refused-teardown", 1)
+		default:
+			run.Add("transport-settings-overflow-ignored", 1)
+		}
+		l.Reset(sid, http2.ErrCodeCancel)
+		return r.ledgerFinding()
+
 	case "stream-fill", "accept":
 		q := &treq{Resp: "all", ReadSz: 1 + rng.Intn(60000), hold: make(chan struct{})}
 		u, f := open(1, q)
@@ -580,10 +640,11 @@ func runRecvT(c *recvCase) *finding {
 		run.Add("receiver-exact-fill-accepted", 1)
 		if c.Kind == "stream-fill" {
 			r.logf("stream window full after %d bytes; overshoot %q", u.off, c.Over)
+			from := r.nResets(u.sid)
 			r.overshoot(u) // a write error means the connection was torn down: judged by refused()
 			run.Add("receiver-overshoot-cases", 1)
 			run.Add("receiver-overshoot-stream-window", 1)
-			return r.refused(u.sid, q)
+			return r.refused(u.sid, q, from)
 		}
 		r.released = true
 		close(q.hold)
@@ -756,6 +817,12 @@ func recvCases() []kase {
 				add(&recvCase{Rig: "S", Kind: "conn-fill", UpStr: 1 << 20, UpConn: conn, N: n, Pad: i%2 == 0, Over: overs[i%3]})
 			}
 		}
+		for _, conn := range []int32{65535, 66000, 100000} {
+			for _, n := range []int{1, 3} {
+				i++
+				add(&recvCase{Rig: "S", Kind: "conn-fill", Sub: "closed-stream", UpStr: 1 << 20, UpConn: conn, N: n, Pad: i%2 == 0, Over: overs[i%3]})
+			}
+		}
 		for _, up := range []int32{1000, 65535, 200000} {
 			for _, conn := range []int32{65535, 70000, 150000} {
 				i++
@@ -777,6 +844,7 @@ func recvCases() []kase {
 		add(&recvCase{Rig: "T", Kind: "accept", Pad: true})
 		add(&recvCase{Rig: "T", Kind: "accept"})
 		add(&recvCase{Rig: "T", Kind: "padding"})
+		add(&recvCase{Rig: "T", Kind: "settings-overflow-probe"})
 		for j, sub := range []string{"body-closed", "cancel", "part", "peer-reset"} {
 			add(&recvCase{Rig: "T", Kind: "closed", Sub: sub, Pad: j%2 == 0})
 		}
